@@ -454,3 +454,88 @@ def r6(cx):
 def re_is_regular():
     import re
     return re.compile(r'::is_regular_file$')
+
+
+# every descriptor-creating call outside yash_env::system, classified (root function, callee) -> class
+FD_SOURCES = {
+    ('yash_semantics::redir::open_file', 'open'): 'redirection',
+    ('yash_semantics::redir::open_file_noclobber', 'open'): 'redirection',
+    ('yash_semantics::redir::here_doc::open_fd', 'open_tmpfile'): 'redirection',
+    ('yash_semantics::redir::perform', 'dup'): 'save',
+    ('yash_semantics::command::item::nullify_stdin', 'open'): 'child-stdin',
+    ('yash_semantics::expansion::initial::command_subst::expand', 'pipe'): 'pipe',
+    ('yash_semantics::command::pipeline::PipeSet::shift', 'pipe'): 'pipe',
+    ('yash_semantics::command::pipeline::PipeSet::move_to_stdin_stdout', 'dup'): 'child-stdout-shuffle',
+    ("yash_semantics::expansion::glob::SearchEnv::<'_, S>::search_dir", 'opendir'): 'directory-handle',
+    ('yash_builtin::source::semantics::open_file', 'open'): 'internal',
+    ('yash_cli::startup::init_file::run_init_file::{closure#0}::open_fd', 'open'): 'internal',
+    ('yash_cli::startup::input::prepare_input', 'open'): 'internal',
+    ('yash_env::Env::<S>::get_tty', 'open'): 'internal',
+    ('yash_env::io::move_fd_internal', 'dup'): 'move-internal',
+}
+FD_CREATORS = ['*::Open::open', '*::Open::open_tmpfile', '*::Pipe::pipe', '*::Dup::dup', '*::Open::fdopendir', '*::Open::opendir']
+
+
+@RS.rule('C09.R8', 'K-CALLERS', 'descriptors the shell opens for itself are opened CLOEXEC and moved to >= MIN_INTERNAL_FD; every descriptor source is classified')
+def r8(cx):
+    F = cx.F
+    sites = [(b, i, t) for b, i, t in F.callers_of(lambda names, t: Q.callee_is(t, FD_CREATORS))
+             if not (b.crate == 'yash_env' and '::system::' in b.fn)]
+    cx.floor(len(sites), 14, 'descriptor-creating call sites outside the system layer')
+    for b, i, t in sites:
+        short = pp.callee(t).split(' [')[0].split('::')[-1]
+        cls = FD_SOURCES.get((b.root, short))
+        cx.site('%s: %s -> %s' % (b.root, short, cls))
+        cx.fn(b.root)
+        if cls is None:
+            cx.violation(b.root, 'unclassified-fd-source:%s' % short, 'a new descriptor source (%s) that is not classified as redirection '
+                         'target / pipe end / shell-internal: shell-internal descriptors must be CLOEXEC and >= 10' % short, loc=b.loc(t))
+            continue
+        if cls == 'internal':
+            # (a) opened with CloseOnExec
+            h = F.hir.get(b.root) or F.hir.get(b.root.split('::{closure')[0])
+            hroot = b.root
+            while h is None and '::' in hroot:
+                hroot = hroot.rsplit('::', 1)[0]
+                h = F.hir.get(hroot)
+            opens = [c for c in H.walk(h['body']) if c.get('k') == 'mcall' and c.get('name') == 'open'] if h is not None else []
+            has_cloexec = bool(opens) and all('CloseOnExec' in _names_in(c, 'yash_env::system::file_system::OpenFlag::') for c in opens)
+            if not has_cloexec:
+                cx.violation(b.root, 'internal-open-without-cloexec', 'a shell-internal descriptor is opened without OpenFlag::CloseOnExec '
+                             '(it would be inherited by every executed program)', loc=b.loc(t))
+            # (b) moved to >= MIN_INTERNAL_FD by the same function
+            moved = any(Q.find_calls(lb, ['yash_env::io::move_fd_internal']) for lb in F.logical(b.root))
+            if not moved:
+                cx.violation(b.root, 'internal-open-not-moved', 'a shell-internal descriptor is not moved to >= MIN_INTERNAL_FD '
+                             '(it can collide with descriptors 0-9 that belong to the user)', loc=b.loc(t))
+        if cls in ('save', 'move-internal'):
+            du = Q.DefUse(b)
+            names = Q.arg_names(b, du, t)
+            flag = du.origin(t['a'][3]) if len(t['a']) > 3 else None
+            ok_min = 'const yash_env::io::MIN_INTERNAL_FD' in names
+            ok_flag = False
+            if flag and flag['k'] == 'call':
+                src = du.origin(flag['t']['a'][0])
+                ok_flag = src['k'] == 'agg' and src['rv'].get('variant') == 'CloseOnExec'
+            if not ok_min or not ok_flag:
+                cx.violation(b.root, 'internal-dup-params', 'the internal duplicate must be made at >= MIN_INTERNAL_FD with CloseOnExec '
+                             '(min ok: %s, cloexec ok: %s)' % (ok_min, ok_flag), loc=b.loc(t))
+    # move_fd_internal closes the original on every path after the dup
+    mb = F.body('yash_env::io::move_fd_internal')
+    cx.fn(mb.fn)
+    dups = Q.find_calls(mb, ['*::Dup::dup'])
+    closes = Q.find_calls(mb, CLOSE)
+    cx.require(len(dups) == 1, 'dup not found in move_fd_internal')
+    p = Q.must_pass(mb, mb.succ(dups[0][0]), {b for b, _ in closes})
+    cx.site('move_fd_internal: dup at %s, %d close' % (mb.loc(dups[0][1]), len(closes)))
+    if p:
+        cx.violation(mb.fn, 'original-not-closed', 'move_fd_internal can return without closing the original descriptor',
+                     loc=mb.loc(dups[0][1]), path=Q.render_path(mb, p))
+    du = Q.DefUse(mb)
+    # the early return is guarded by from >= MIN_INTERNAL_FD
+    oks = [(b, j, s) for b, j, s in Q.find_aggregates(mb, 'core::result::Result', 'Ok') if s['lhs']['l'] == 0]
+    for b, j, s in oks:
+        conds = Q.dominating_conditions(F, mb, du, b)
+        if not any(org['k'] == 'call' and Q.callee_is(org['t'], [Q.re.compile(r'PartialOrd.*::ge$')]) and lab == ('bool', True) for org, lab, e in conds):
+            cx.violation(mb.fn, 'early-return-guard', 'move_fd_internal returns the original descriptor without establishing from >= MIN_INTERNAL_FD',
+                         loc=mb.loc(s))
